@@ -74,7 +74,11 @@ func (t *_ticker) run() {
 
 		case <-t.resetch:
 			if !timer.Stop() {
-				<-timer.C
+				// the timer has fired; its value may already have been consumed
+				select {
+				case <-timer.C:
+				default:
+				}
 			}
 			timer.Reset(t.nextPeriod())
 			nextch = nil
